@@ -179,9 +179,9 @@ def verdicts(tier, seed, names=None):
         return traces, v["out"], v["stats"]
     out, r, norm = loopbind.validate(traces, timeout=1500)
     stats = {"distinct": r.distinct, "generated": r.generated, "depth": r.depth, "wall_s": round(r.wall_s, 1), "events": sum(len(t["events"]) for t in traces)}
-    with open(vpath + ".tmp", "w") as f:
+    with open(vpath + f".tmp{os.getpid()}", "w") as f:
         json.dump({"out": out, "stats": stats}, f)
-    os.replace(vpath + ".tmp", vpath)
+    os.replace(vpath + f".tmp{os.getpid()}", vpath)
     return traces, out, stats
 
 
